@@ -24,6 +24,35 @@ RouteFull == {<<l>> : l \in ListsUpTo2(RulesOver(FilterIds, {"A", "B", "C", "den
                           \cup ListsOf3(RulesOver({"none", "false", "err", "l1", "udp", "p80", "src10"}, {"A", "B", "deny"}))}
 
 RuleJson(r) == [filter |-> FilterText(r.f), fid |-> r.f, target |-> r.t]
+(* ---- C15: histories of posts ---- *)
+V1 == <<Rule("l1", "A"), Rule("none", "B")>>
+V2 == <<Rule("p80", "B"), Rule("udp", "deny"), Rule("none", "A")>>
+V3 == <<Rule("none", "deny")>>
+Isyn == <<Rule("syntax", "A"), Rule("none", "B")>>
+Ityp == <<Rule("none", "A"), Rule("illtyped", "B")>>
+Itgt == <<Rule("none", "A"), Rule("l1", "Zed")>>
+SwapLists == {V1, V2, V3, Isyn, Ityp, Itgt}
+Hist(n) == UNION {{<<V1>> \o h : h \in [1..k -> SwapLists]} : k \in 0..n}
+SwapHist2 == Hist(2)
+SwapHist3 == Hist(3)
+ProbeReqs == << [listener |-> "l1", source |-> Src("10.0.0.1:1000", "10.0.0.1", "ipv4", TRUE), target |-> Tgt("domain", "ex.com", 80), feature |-> "TcpForward"],
+                [listener |-> "l2", source |-> Src("10.0.0.1:1000", "10.0.0.1", "ipv4", TRUE), target |-> Tgt("domain", "ex.com", 80), feature |-> "TcpForward"],
+                [listener |-> "l2", source |-> Src("[::1]:3", "::1", "ipv6", FALSE), target |-> Tgt("ipv4", "10.2.3.4", 443), feature |-> "TcpForward"],
+                [listener |-> "l1", source |-> Src("192.168.1.1:2", "192.168.1.1", "ipv4", FALSE), target |-> Tgt("ipv4", "10.2.3.4", 443), feature |-> "UdpForward"] >>
+SwapReqSet == {ProbeReqs[i] : i \in 1..Len(ProbeReqs)}
+
+RECURSIVE InForce(_, _)
+InForce(h, k) == IF k = 1 THEN h[1] ELSE IF Valid(h[k]) THEN h[k] ELSE InForce(h, k - 1)
+ListJson(l) == [i \in 1..Len(l) |-> RuleJson(l[i])]
+EmitSwap == (postPhase = "idle" /\ Len(postOk) = Len(lists)) =>
+   PrintT(<<"CASE", ToJson([lists |-> [k \in 1..Len(lists) |-> ListJson(lists[k])], ok |-> postOk,
+                            reqs |-> ProbeReqs,
+                            decisions |-> [k \in 1..Len(lists) |-> [q \in 1..Len(ProbeReqs) |->
+                                               Decision(InForce(lists, k), ProbeReqs[q], Connectors)]]])>>)
+(* in every state the list in force is the last valid one among those whose post has finished (or is being swapped in) *)
+InForceInv == LET done == Len(postOk) IN
+              rules = InForce(lists, done) \/ (postPhase = "accepted" /\ rules = InForce(lists, posting))
+
 EmitRoute == (\A c \in Conns : Terminal(c)) =>
    PrintT(<<"CASE", ToJson([rules |-> [i \in 1..Len(lists[1]) |-> RuleJson(lists[1][i])],
                             reqs |-> [c \in Conns |-> reqs[c]],
